@@ -297,7 +297,7 @@ func runSweep3x(a *args) {
 								case "C11":
 									checkTenth(col, prop, v, o, "temporal", gt, p, msg, 0)
 								case "C12":
-									if !p && e != "X" && rl != "X" && rc != "X" {
+									if !p { // a metric at X has no successor in the severity order and is skipped by neighbours3 itself
 										neighbours3(col, prop, tb, v, o, c, []string{"temporal"}, append(append([]string{}, v3base...), v3temp...), &lc)
 									}
 								}
@@ -326,7 +326,7 @@ func runSweep3x(a *args) {
 											case "C11":
 												checkTenth(col, prop, v, o, "environmental", gv, p, msg, 0)
 											case "C12":
-												if vn == "3.1" && !p && e != "X" && rl != "X" && rc != "X" && cr != "X" && ir != "X" && ar != "X" {
+												if vn == "3.1" && !p {
 													neighbours3(col, prop, tb, v, o, c, []string{"environmental"}, append(append(append([]string{}, v3base...), v3temp...), v3req...), &lc)
 												}
 											}
